@@ -20,6 +20,8 @@ def circuits(rng, n_extra=0):
     out.append(("arith2pi-extra-pi", "pub 5;w 7;gadd 0 1 1 0 3 5 $0 $1 #0;pub 9;bool #1"))
     # same gates, selectors and wiring; one more public-input row whose value is ZERO (contributes nothing to PI(z))
     out.append(("arith2pi-extra-zero-pi", "pub 5;w 7;gadd 0 1 1 0 3 0 $0 $1 #0;pub 9;bool #1"))
+    # 1b. NO public inputs at all: any non-empty public-input vector must be refused (length 0 is the only matching statement)
+    out.append(("no-public-inputs", "w 5;w 7;gadd 0 1 1 0 3 - $0 $1 #0;bool #1"))
     # 2. range + logic + select, public inputs adjacent and zero-valued
     out.append(("gadgets", "pub 0;pub 1;w 2d;rangebits 7 $2;w 33;xor 4 $2 $3;and 3 $2 $3;sel $1 $2 $3;pub 0"))
     # 3. points
